@@ -34,6 +34,13 @@ type Outcome struct {
 	Logs    []string
 	Events  []Event
 	Unknown string // non-empty: the evaluator does not model this program
+	// Notes counts dynamic situations a check may want to recognise (e.g.
+	// "self-member-swap": a swap whose two targets are the same field of the
+	// same object).
+	Notes map[string]int
+	// Skips counts short-circuit decisions (&&, ||, ??, ?:, optional chaining)
+	// whose unevaluated part contains a call (i.e. an observable effect).
+	Skips int
 }
 
 func (o Outcome) String() string {
@@ -98,6 +105,13 @@ type Machine struct {
 	events  []Event
 	Storage map[string]Value
 	fuel    int
+	skips   int
+	notes   map[string]int
+	// Diag: do not abort on a false condition but record it in FalseConds and
+	// continue (used by generators to find arguments falsifying exactly one
+	// condition).
+	Diag       bool
+	FalseConds []string
 }
 
 // Fuel is the statement/expression budget of one evaluation.
@@ -105,6 +119,15 @@ const Fuel = 2_000_000
 
 func NewMachine(p *Program) *Machine {
 	return &Machine{prog: p, Storage: map[string]Value{}}
+}
+
+// EvalDiag runs the program without aborting on false conditions and returns
+// the identifiers of the conditions that were false.
+func EvalDiag(p *Program) ([]string, Outcome) {
+	m := NewMachine(p)
+	m.Diag = true
+	o := m.run(func() Value { return m.callDecl(p.Main, nil, nil, nil) })
+	return m.FalseConds, o
 }
 
 // Eval runs the script entry point of a program.
@@ -141,9 +164,9 @@ func (m *Machine) RunStep(s Step) Outcome {
 }
 
 func (m *Machine) run(f func() Value) (o Outcome) {
-	m.logs, m.events, m.fuel = nil, nil, Fuel
+	m.logs, m.events, m.fuel, m.skips, m.notes = nil, nil, Fuel, 0, map[string]int{}
 	defer func() {
-		o.Logs, o.Events = m.logs, m.events
+		o.Logs, o.Events, o.Skips, o.Notes = m.logs, m.events, m.skips, m.notes
 		if r := recover(); r != nil {
 			switch x := r.(type) {
 			case failure:
@@ -248,66 +271,71 @@ func collectBefore(e Expr, out *[]Before) {
 	}
 }
 
-// callDecl runs a function: parameters are bound to the (already transferred)
-// arguments, then all pre-conditions of conds, the before-snapshots of their
-// post-conditions, the body of impl, and the post-conditions with `result`.
+// callDecl runs a function. conds lists every declaration that contributes
+// conditions (the implementation itself plus the inherited interface
+// declarations; nil = just impl). Each declaration sees the arguments under its
+// own parameter names. Order: all pre-conditions, the before-snapshots of all
+// post-conditions (entry state), the body of impl, all post-conditions with
+// `result` bound to the returned value.
 func (m *Machine) callDecl(impl *FuncDecl, conds []*FuncDecl, self *CompV, args []Value, closure ...*env) Value {
 	m.tick()
 	var parent *env
 	if len(closure) > 0 {
 		parent = closure[0]
 	}
-	fr := &frame{self: self, env: newEnv(parent), before: map[string]Value{}}
-	if len(args) != len(impl.Params) {
-		unk("arity mismatch calling %s", impl.Name)
-	}
-	for i, p := range impl.Params {
-		fr.env.declare(p.Name, args[i])
-	}
 	if conds == nil {
 		conds = []*FuncDecl{impl}
 	}
-	for _, d := range conds {
-		for _, c := range d.Pre {
-			m.condition(fr, c, FailPre)
+	bind := func(d *FuncDecl) *frame {
+		fr := &frame{self: self, env: newEnv(parent), before: map[string]Value{}}
+		if len(args) != len(d.Params) {
+			unk("arity mismatch calling %s", d.Name)
+		}
+		for i, p := range d.Params {
+			fr.env.declare(p.Name, args[i])
+		}
+		return fr
+	}
+	frames := make([]*frame, len(conds))
+	for i, d := range conds {
+		frames[i] = bind(d)
+	}
+	for i, d := range conds {
+		for k, c := range d.Pre {
+			m.condition(frames[i], c, FailPre, d, k)
 		}
 	}
-	for _, d := range conds {
+	for i, d := range conds {
 		for _, c := range d.Post {
-			if c.Test == nil {
-				if c.Emit != nil {
-					for _, a := range c.Emit.Args {
-						m.snapBefore(fr, a.E)
-					}
+			if c.Emit != nil {
+				for _, a := range c.Emit.Args {
+					m.snapBefore(frames[i], a.E)
 				}
 				continue
 			}
-			m.snapBefore(fr, c.Test)
+			m.snapBefore(frames[i], c.Test)
 		}
 	}
-	body := newEnv(fr.env)
-	bfr := &frame{self: self, env: body, before: fr.before}
+	bfr := bind(impl)
+	var ret Value
 	if m.execBlock(bfr, impl.Body) == ctrlReturn {
-		fr.ret = bfr.ret
+		ret = bfr.ret
 	}
-	hasPost := false
-	for _, d := range conds {
-		hasPost = hasPost || len(d.Post) > 0
-	}
-	if hasPost {
+	for i, d := range conds {
+		if len(d.Post) == 0 {
+			continue
+		}
 		if impl.Ret != nil && impl.Ret.K != KVoid {
-			fr.env.declare("result", fr.ret)
+			frames[i].env.declare("result", ret)
 		}
-		for _, d := range conds {
-			for _, c := range d.Post {
-				m.condition(fr, c, FailPost)
-			}
+		for k, c := range d.Post {
+			m.condition(frames[i], c, FailPost, d, k)
 		}
 	}
-	if fr.ret == nil {
+	if ret == nil {
 		return VoidV{}
 	}
-	return fr.ret
+	return ret
 }
 
 func (m *Machine) snapBefore(fr *frame, e Expr) {
@@ -321,7 +349,16 @@ func (m *Machine) snapBefore(fr *frame, e Expr) {
 	}
 }
 
-func (m *Machine) condition(fr *frame, c Condition, kind string) {
+// CondID names one condition: "<owner>.<function>/<pre|post>/<index>".
+func CondID(d *FuncDecl, kind string, k int) string {
+	w := "pre"
+	if kind == FailPost {
+		w = "post"
+	}
+	return fmt.Sprintf("%s.%s/%s/%d", d.Owner, d.Name, w, k)
+}
+
+func (m *Machine) condition(fr *frame, c Condition, kind string, d *FuncDecl, k int) {
 	if c.Emit != nil {
 		m.emit(fr, *c.Emit)
 		return
@@ -332,6 +369,10 @@ func (m *Machine) condition(fr *frame, c Condition, kind string) {
 		unk("condition is not boolean")
 	}
 	if !b {
+		if m.Diag {
+			m.FalseConds = append(m.FalseConds, CondID(d, kind, k))
+			return
+		}
 		fail(kind)
 	}
 }
@@ -347,11 +388,9 @@ func (m *Machine) emit(fr *frame, e Emit) {
 func (m *Machine) evalArgs(fr *frame, args []Arg) []Value {
 	out := make([]Value, len(args))
 	for i, a := range args {
-		out[i] = m.eval(fr, a.E)
-	}
-	// arguments are transferred to the callee: independent copies
-	for i := range out {
-		out[i] = Copy(out[i])
+		// each argument is transferred to the callee (an independent copy)
+		// right after it has been evaluated
+		out[i] = Copy(m.eval(fr, a.E))
 	}
 	return out
 }
@@ -419,6 +458,9 @@ func (m *Machine) exec(fr *frame, s Stmt) ctrl {
 	case Swap:
 		l := m.lvalue(fr, s.L)
 		r := m.lvalue(fr, s.R)
+		if l.obj != nil && l.obj == r.obj && l.field == r.field {
+			m.notes["self-member-swap"]++
+		}
 		lv := l.get()
 		rv := r.get()
 		lc, rc := Copy(lv), Copy(rv)
@@ -498,8 +540,10 @@ func (m *Machine) exec(fr *frame, s Stmt) ctrl {
 // ---- assignment targets ------------------------------------------------------------
 
 type lval struct {
-	get func() Value
-	set func(Value)
+	get   func() Value
+	set   func(Value)
+	obj   *CompV // member targets: the object and field
+	field string
 }
 
 func deref(v Value) Value {
@@ -528,6 +572,7 @@ func (m *Machine) lvalue(fr *frame, t Expr) lval {
 		return lval{
 			get: func() Value { return obj.Fields[t.Name] },
 			set: func(v Value) { obj.Fields[t.Name] = v },
+			obj: obj, field: t.Name,
 		}
 	case Index:
 		c := deref(m.eval(fr, t.X))
@@ -644,8 +689,10 @@ func (m *Machine) eval(fr *frame, e Expr) Value {
 		return m.binary(fr, e)
 	case Cond:
 		if m.evalBool(fr, e.C) {
+			m.skipped(e.B)
 			return m.eval(fr, e.A)
 		}
+		m.skipped(e.A)
 		return m.eval(fr, e.B)
 	case Force:
 		x := m.eval(fr, e.X)
@@ -710,6 +757,9 @@ func (m *Machine) eval(fr *frame, e Expr) Value {
 	case Invoke:
 		recv := m.eval(fr, e.X)
 		if e.Opt && isNil(recv) {
+			for _, a := range e.Args {
+				m.skipped(a.E)
+			}
 			return NilV{} // arguments are not evaluated
 		}
 		return m.invoke(fr, recv, e.Name, e.Args)
@@ -876,6 +926,15 @@ func (m *Machine) invoke(fr *frame, recv Value, name string, argExprs []Arg) Val
 			}
 			return BoolV(false)
 		}
+	case StrV:
+		args := m.evalArgs(fr, argExprs)
+		if name == "concat" {
+			return StrV(string(c) + string(args[0].(StrV)))
+		}
+	case IntV:
+		if name == "toString" {
+			return StrV(c.V.String())
+		}
 	case *DictV:
 		args := m.evalArgs(fr, argExprs)
 		switch name {
@@ -908,17 +967,20 @@ func (m *Machine) binary(fr *frame, e Binary) Value {
 	switch e.Op {
 	case "&&":
 		if !m.evalBool(fr, e.L) {
+			m.skipped(e.R)
 			return BoolV(false)
 		}
 		return BoolV(m.evalBool(fr, e.R))
 	case "||":
 		if m.evalBool(fr, e.L) {
+			m.skipped(e.R)
 			return BoolV(true)
 		}
 		return BoolV(m.evalBool(fr, e.R))
 	case "??":
 		l := m.eval(fr, e.L)
 		if !isNil(l) {
+			m.skipped(e.R)
 			return l
 		}
 		return m.eval(fr, e.R)
@@ -1003,4 +1065,109 @@ func (m *Machine) conforms(v Value, t *Type) bool {
 	}
 	unk("type test of %T", v)
 	return false
+}
+
+func (m *Machine) skipped(e Expr) {
+	if HasCall(e) {
+		m.skips++
+	}
+}
+
+// HasCall reports whether evaluating e can run a function (and so log).
+func HasCall(e Expr) bool {
+	switch e := e.(type) {
+	case Call, CallVal, Invoke, New:
+		return true
+	case Unary:
+		return HasCall(e.X)
+	case Binary:
+		return HasCall(e.L) || HasCall(e.R)
+	case Cond:
+		return HasCall(e.C) || HasCall(e.A) || HasCall(e.B)
+	case Force:
+		return HasCall(e.X)
+	case Cast:
+		return HasCall(e.X)
+	case Index:
+		return HasCall(e.X) || HasCall(e.I)
+	case Member:
+		return HasCall(e.X)
+	case ArrLit:
+		for _, x := range e.Elems {
+			if HasCall(x) {
+				return true
+			}
+		}
+	case DictLit:
+		for i := range e.Keys {
+			if HasCall(e.Keys[i]) || HasCall(e.Vals[i]) {
+				return true
+			}
+		}
+	case RefOf:
+		return HasCall(e.X)
+	case Deref:
+		return HasCall(e.X)
+	case Tmpl:
+		for _, x := range e.Exprs {
+			if HasCall(x) {
+				return true
+			}
+		}
+	case Move:
+		return HasCall(e.X)
+	}
+	return false
+}
+
+// ---- interactive sessions (generators that need the model state while generating) ----
+
+// Session executes statements one at a time in a persistent frame, so that a
+// generator can inspect the model's current values to pick valid access paths.
+type Session struct {
+	m  *Machine
+	fr *frame
+}
+
+// Begin starts a session (one function body / one step of a history).
+func (m *Machine) Begin() *Session {
+	m.logs, m.events, m.fuel, m.skips, m.notes = nil, nil, Fuel, 0, map[string]int{}
+	return &Session{m: m, fr: &frame{env: newEnv(nil), before: map[string]Value{}}}
+}
+
+// Exec runs one statement; the result is "" or the failure/unknown description.
+func (s *Session) Exec(st Stmt) (problem string) {
+	defer func() {
+		if r := recover(); r != nil {
+			switch x := r.(type) {
+			case failure:
+				problem = "fail:" + x.kind
+			case unknown:
+				problem = "unknown:" + x.what
+			default:
+				panic(r)
+			}
+		}
+	}()
+	s.m.fuel = Fuel
+	s.m.exec(s.fr, st)
+	return ""
+}
+
+// Eval evaluates an expression in the session's scope.
+func (s *Session) Eval(e Expr) (v Value, problem string) {
+	defer func() {
+		if r := recover(); r != nil {
+			switch x := r.(type) {
+			case failure:
+				problem = "fail:" + x.kind
+			case unknown:
+				problem = "unknown:" + x.what
+			default:
+				panic(r)
+			}
+		}
+	}()
+	s.m.fuel = Fuel
+	return s.m.eval(s.fr, e), ""
 }
